@@ -632,6 +632,9 @@ func Model(kind string, stream []byte, events []xport.Event, E int) Stop {
 				return s
 			}
 		case "timeout", "empty", "cancel":
+			if ev.Kind == "timeout" {
+				step(ev.N) // (a timed-out read may carry bytes)
+			}
 			if s, ok := check(false); ok {
 				s.EventsUsed = i + 1
 				return s
